@@ -79,6 +79,7 @@ def from_heap(v):
 def body_register_type(wrong=None, drop=None):
     """one call of Registry::register_type from an arbitrary state satisfying INV (ground-instantiated), argument with arbitrary TypeId"""
     def body(M):
+        M.aux['tid_sort'] = TID
         s0, s2 = state('0'), state('2')
         P = z3.Const('P', Def)
         tid = z3.Const('tid', TID)
@@ -195,18 +196,20 @@ def body_registry_history(n, wrong=False):
     from lib import v14ref
     from mirsym.models import seq_elems
     def body(M):
-        M.aux['dictmaps'] = True
+        M.aux['dictmaps'] = True; M.aux['tid_sort'] = TID
         reg = Cell(M.run_fn(M.resolve('Registry::new'), []))
         tids = [z3.Const('t%d' % i, TID) for i in range(n)]
         if n > 1: M.add(z3.Distinct(tids))
         defs, log = [], []
         for i in range(n + 1):      # one spare definition: a faulty re-registration may evaluate the (n+1)-th MetaType
-            if n <= 3:      # definitions may coincide (symbolic): dedup-by-content style bugs
-                plen = z3.BitVec('plen%d' % i, 64); prim = z3.BitVec('prim%d' % i, 64)
-                M.add(z3.ULE(plen, 1)); M.add(z3.ULT(prim, 3)); seg = Tok('seg')
+            if n <= 3:      # definitions may coincide (symbolic): dedup-by-content style bugs; kind: primitive or field-less composite (content-based filters)
+                plen = z3.BitVec('plen%d' % i, 64); prim = z3.BitVec('prim%d' % i, 64); kind = z3.BitVec('kind%d' % i, 64)
+                M.add(z3.ULE(plen, 1)); M.add(z3.ULT(prim, 3)); M.add(z3.Or(kind == 0, kind == 5)); seg = Tok('seg')
             else:           # long histories: pairwise different concrete definitions (table-size dependent bugs)
-                plen, prim, seg = bv(1, 64), bv(i % 15, 64), Tok('seg%d' % i)
-            defs.append([[VecV(plen, [seg])], VecV(bv(0, 64), []), EnumV('TypeDef', 5, {5: [EnumV('TypeDefPrimitive', prim, {k: [] for k in range(15)})]}), VecV(bv(0, 64), [])])
+                plen, prim, seg, kind = bv(1, 64), bv(i % 15, 64), Tok('seg%d' % i), 5
+            pl = {5: [EnumV('TypeDefPrimitive', prim, {k: [] for k in range(15)})]}
+            if not isinstance(kind, int): pl[0] = [[VecV(bv(0, 64), [])]]
+            defs.append([[VecV(plen, [seg])], VecV(bv(0, 64), []), EnumV('TypeDef', kind, pl), VecV(bv(0, 64), [])])
         def mk_fn(i):
             def f(M):
                 log.append(i); return Tok('TYPE%d' % i)
@@ -235,5 +238,5 @@ def body_registry_history(n, wrong=False):
         m = M.model(z3.Or([c for _, c in viol]))
         if m is None: M.emit('ok', conjuncts=sorted({w for w, _ in viol}))
         else: M.emit('cex', what='registry_history', n=n, failed=sorted({w for w, c in viol if z3.is_true(m.eval(c, model_completion=True))})[:6],
-                     coincide=[[i, j] for i in range(n) for j in range(i + 1, n) if z3.is_true(m.eval(z3.And(defs[i][0][0].len == defs[j][0][0].len, defs[i][2].payloads[5][0].discr == defs[j][2].payloads[5][0].discr), model_completion=True))])
+                     coincide=[[i, j] for i in range(n) for j in range(i + 1, n) if z3.is_true(m.eval(z3.And(defs[i][0][0].len == defs[j][0][0].len, z3.BoolVal(True) if isinstance(defs[i][2].discr, int) else defs[i][2].discr == defs[j][2].discr, defs[i][2].payloads[5][0].discr == defs[j][2].payloads[5][0].discr), model_completion=True))])
     return body
